@@ -1390,7 +1390,9 @@ class DesignSpace:
         rounded_x_vect = x_vect.copy() if copy else x_vect
 
         are_integers = self.__integer_components
-        rounded_x_vect[..., are_integers] = np_round(x_vect[..., are_integers])
+        # Adding zero turns the -0.0 returned by numpy.round (e.g. for -0.25) into 0.0,
+        # so that a rounded point has a unique binary representation (and database key).
+        rounded_x_vect[..., are_integers] = np_round(x_vect[..., are_integers]) + 0.0
         return rounded_x_vect
 
     def set_current_value(
